@@ -1415,6 +1415,32 @@ fn src_bounds() -> &'static Vec<u64> {
     })
 }
 
+/// total data lengths worth a well-formed image each: around the integer constants of decoder.rs / image.rs as
+/// they are NOW and around the powers of two, up to 4100 bytes
+fn data_length_bounds() -> Vec<u64> {
+    let mut b: Vec<u64> = source_boundaries(&["src/decoder.rs", "src/image.rs"], 4100).into_iter().filter(|&v| v >= 1).collect();
+    for k in 1..=12u32 {
+        let p = 1u64 << k;
+        b.extend([p - 1, p, p + 1]);
+    }
+    b.sort_unstable();
+    b.dedup();
+    b
+}
+
+/// h x w = n with h the largest divisor of n not above its square root (1 x n for a prime)
+fn factor_pair(n: u64) -> (u64, u64) {
+    let mut h = 1;
+    let mut d = 1;
+    while d * d <= n {
+        if n % d == 0 {
+            h = d;
+        }
+        d += 1;
+    }
+    (h, n / h.max(1))
+}
+
 fn gen_image_doc(rng: &mut Rng) -> J {
     let pick = |rng: &mut Rng| -> u64 {
         match rng.below(6) {
@@ -2024,6 +2050,16 @@ pub fn generate(rng: &mut Rng, n: usize, tier: &str) -> Vec<Value> {
     }
     // sizes and counts the anchored sources mention (and their neighbours), small enough to carry data
     let bounds: Vec<u64> = source_boundaries(&["src/image.rs", "src/surface.rs", "src/terminal.rs", "src/glyph.rs"], 40);
+    // DATA LENGTHS: the base64 payload is decoded through buffers and read calls of some size, so the lengths around
+    // the integer constants of the decoder and the image code, and around the powers of two (the growth schedule of
+    // Vec / read_to_end), each as a well-formed greyscale image h x w = length; key orders and entry points rotate
+    let len_bounds = data_length_bounds();
+    for (i, &len) in len_bounds.iter().enumerate() {
+        let (h, w) = factor_pair(len);
+        let data = rng.bytes(len as usize);
+        let mode = ["str", "slice", "reader"][i % 3];
+        v.push(json!({"kind": "image_ch", "c": 1, "h": h, "w": w, "data": jbytes(&data), "order": (i % 6) as u64, "mode": mode}));
+    }
     let fixed = v.len();
     // random part ------------------------------------------------------------
     while v.len() < fixed + n {
@@ -2056,6 +2092,14 @@ pub fn generate(rng: &mut Rng, n: usize, tier: &str) -> Vec<Value> {
                 if c * h * w > 4096 {
                     h = h.min(4);
                     w = w.min(4);
+                }
+                // or a total data length at a boundary, in the layout that divides it
+                let mut c = c;
+                if rng.chance(1, 6) {
+                    let len = *rng.pick(&len_bounds);
+                    c = *[4u64, 3, 1].iter().find(|&&k| len % k == 0 && rng.chance(2, 3)).unwrap_or(&1);
+                    let (a, b) = factor_pair(len / c);
+                    if rng.chance(1, 2) { h = a; w = b } else { h = b; w = a }
                 }
                 let len = (c * h * w) as usize;
                 let len = if rng.chance(1, 8) { len + 1 } else { len };
